@@ -263,6 +263,7 @@ WebSocketMsg WebSocket::receive()
 {
 	WebSocketMsg msg;
 	bool haveMsg = false;
+	bool partial = false; // fragments of a message received, final one pending
 	while (!haveMsg)
 	{
 		ByteArray buffer;
@@ -325,6 +326,7 @@ WebSocketMsg WebSocket::receive()
 		case 1: // text
 		case 2: // binary
 			msg.append(buffer);
+			partial = !fin;
 			break;
 		case 8: // connection close
 		{
@@ -346,7 +348,7 @@ WebSocketMsg WebSocket::receive()
 			break;
 		}
 
-		if (fin)
+		if (fin && (opcode < 8 || !partial)) // a control frame between fragments does not end the message
 			haveMsg = true;
 	}
 
